@@ -288,6 +288,10 @@ def _guard(f, *a, **k):
     except (Undecided, Raises, _Return, _Break, _Continue):
         raise
     except Exception as exc:  # noqa: BLE001 - whatever a builtin or a representative object of the checker raises is an exception of the interpreted program
+        # remember the real class hierarchy of exceptions the table does not know (decimal.Overflow -> ArithmeticError ...)
+        mro = [c.__name__ for c in type(exc).__mro__ if c not in (object,)]
+        for child, par in zip(mro, mro[1:]):
+            EXC_PARENTS.setdefault(child, par)
         raise Raises(type(exc).__name__, str(exc)) from None
 
 
